@@ -233,6 +233,9 @@ def rule_report(ck):
 
 
 def run(ck):
+    # a signal stop is reported with its thread wherever that thread executes (shared with C09)
+    from rules import C09
+    C09.rule_thread_list(ck)
     rule_sets(ck)
     rule_sinks(ck)
     rule_queue(ck)
